@@ -14,7 +14,7 @@ use easy_ml::tensors::indexing::{
     TensorAccess, TensorIterator, TensorOwnedIterator, TensorReferenceIterator, TensorReferenceMutIterator,
 };
 use easy_ml::tensors::views::{
-    IndexRange, TensorMask, TensorMut, TensorRange, TensorRef, TensorReverse, TensorView,
+    IndexRange, TensorIndex, TensorMask, TensorMut, TensorRange, TensorRef, TensorReverse, TensorView,
 };
 use easy_ml::tensors::Tensor;
 use std::cell::Cell;
@@ -295,6 +295,40 @@ fn log_view<const D: usize>(t: &mut Tensor<u64, D>, adaptor: &str, flavour: &str
             }
         }
         _ => "bad-adaptor".into(),
+    }
+}
+
+/// `index:<name>.<i>`: `TensorIndex::from(&mut tensor, [(name, i)])` (what `select` builds), one
+/// dimension fewer — the constructor must reject `i >= length` before any element is touched
+fn log_index(any: &mut AnyT, spec: &str, flavour: &str) -> String {
+    let (name, i) = spec.split_once('.').expect("name.index");
+    let name = intern(name);
+    let i: usize = i.parse().expect("index");
+    macro_rules! body {
+        ($t:ident, $d1:literal) => {{
+            let limit = storage_len($t).saturating_add(2).min(1 << 20);
+            let mut copy;
+            let target = if flavour == "owned" {
+                copy = $t.clone();
+                &mut copy
+            } else {
+                $t
+            };
+            match catch(|| TensorIndex::from(&mut *target, [(name, i)])) {
+                Ok(v) => log_source::<_, $d1>(v, flavour, limit),
+                Err(PanicKind::Explicit) => "rejected".into(),
+                Err(k) => panic_str(k),
+            }
+        }};
+    }
+    match any {
+        AnyT::D0(_) => "rejected".into(),
+        AnyT::D1(t) => body!(t, 0),
+        AnyT::D2(t) => body!(t, 1),
+        AnyT::D3(t) => body!(t, 2),
+        AnyT::D4(t) => body!(t, 3),
+        AnyT::D5(t) => body!(t, 4),
+        AnyT::D6(t) => body!(t, 5),
     }
 }
 
@@ -822,6 +856,7 @@ impl Runner {
                 let names = parse_names(toks[1]);
                 on_t!(any, t => log_access(t, &names, toks[2]))
             }
+            "log_view" if toks[1].starts_with("index:") => log_index(any, &toks[1][6..], toks[2]),
             "log_view" => on_t!(any, t => log_view(t, toks[1], toks[2])),
             _ => {
                 let d = on_t!(any, t => mutate(t, toks));
@@ -1017,10 +1052,19 @@ fn emit_observations(g: &mut Gen, cur: &Cur, all: bool) {
         let name = if g.rng.chance(1, 10) { "zz" } else { name };
         let start = g.rng.below(len + 1);
         let l = g.rng.below(len + 2);
-        let kind = *g.rng.pick(&["range", "mask", "reverse"]);
+        let kind = *g.rng.pick(&["range", "mask", "reverse", "index", "index"]);
         let f = *g.rng.pick(&FLAVOURS);
         g.count(&format!("log.view.{}.{}", kind, f));
-        if kind == "reverse" {
+        if kind == "index" {
+            // select: inside, exactly one past the end (the boundary), far outside
+            let at = match g.rng.below(4) {
+                0 => len,
+                1 => len + 1 + g.rng.below(3),
+                _ => g.rng.below(len),
+            };
+            g.count(if at < len { "log.view.index.inside" } else if at == len { "log.view.index.boundary" } else { "log.view.index.outside" });
+            g.op(format!("log_view index:{}.{} {}", name, at, f));
+        } else if kind == "reverse" {
             g.op(format!("log_view reverse:{} {}", name, f));
         } else {
             g.op(format!("log_view {}:{}.{}.{} {}", kind, name, start, l, f));
